@@ -722,7 +722,7 @@ def suite_two_workers(tier, seed):
         from nostr_relay.config import Config
         from nostr_relay.storage import get_metadata
         from nostr_relay.storage.db import DBStorage
-        env.load_config(run_notifier=True)
+        env.load_config(run_notifier=True, output_validator="harness.extra.public_only")
         env.patch_clock()
         sock = socket.socket()
         sock.bind(("127.0.0.1", 0))
@@ -739,8 +739,18 @@ def suite_two_workers(tier, seed):
         gate = asyncio.Event()          # held while the last worker accepts its early event: its notifier is not connected yet
         gate.set()
 
+        class Remembering(dict):
+            """the server's connection table, remembering every writer ever registered: a handler that ends on a peer's
+            EOF does not close its writer, and NotifyServer.run cannot leave `async with server` before it is closed"""
+            ever = []
+
+            def __setitem__(self, k, v):
+                Remembering.ever.append(v)
+                dict.__setitem__(self, k, v)
+
         def server_init(self, port_=None):
             si(self, port=port)
+            self.connections = Remembering()
             servers.append(self)
 
         async def start_server(*a, **k):
@@ -807,42 +817,84 @@ def suite_two_workers(tier, seed):
             for q in queues:
                 while not q.empty():
                     q.get_nowait()
-            accepted, raised = [], []
-            for k, (w, c) in enumerate(script):
-                e = env.mk_event(k % 3, 1, env.NOW - 50 + k, [], c)
+            accepted, raised = [], []          # accepted: ids every subscriber has to be pushed (events the output validator admits)
+            import sqlalchemy as sa
+            import time as _time
+            slow = workers[script[0][0]]
+            # the commits of one worker take a while (busy disk): its announcements must not overtake them
+            # (the hook runs in SQLAlchemy's greenlet on the event-loop thread: await_only hands control back to the loop, as a
+            # commit that waits for the disk does)
+            from sqlalchemy.util import await_only
+            sa.event.listen(slow.db.sync_engine, "commit", lambda conn: await_only(asyncio.sleep(0.05)))
+            alive = list(range(len(workers)))
+
+            async def submit(w, e, visible=True):
                 try:
                     _, ok = await workers[w].add_event(e)
                 except Exception as ex:      # noqa
-                    raised.append("worker %d, event %d: %r" % (w, k, ex))
+                    raised.append("worker %d: %r" % (w, ex))
                     ok = await workers[w].get_event(e["id"]) is not None
-                if ok:
+                if ok and visible:
                     accepted.append(e["id"])
                 await asyncio.sleep(0.01)
+                return ok
             got = [[] for _ in workers]
-            for _ in range(1500):
+
+            async def collect(expect_from):
+                for _ in range(1500):
+                    for i, q in enumerate(queues):
+                        while not q.empty():
+                            sid, ev = q.get_nowait()
+                            if ev is not None:
+                                got[i].append(ev.id)
+                    if all(len(got[i]) >= len(accepted) for i in expect_from):
+                        break
+                    await asyncio.sleep(0.01)
+                await asyncio.sleep(0.1)
                 for i, q in enumerate(queues):
                     while not q.empty():
                         sid, ev = q.get_nowait()
                         if ev is not None:
                             got[i].append(ev.id)
-                if all(len(g) >= len(accepted) for g in got):
-                    break
-                await asyncio.sleep(0.01)
-            await asyncio.sleep(0.1)
-            for i, q in enumerate(queues):
-                while not q.empty():
-                    sid, ev = q.get_nowait()
-                    if ev is not None:
-                        got[i].append(ev.id)
-            return accepted, got, connected, bool(Config.should_run_notifier), early_failed, raised
+            # phase 1: events accepted by random workers; some are for members only (the output validator withholds them from everybody here)
+            for k, (w, c) in enumerate(script):
+                secret = c.endswith("s")
+                await submit(w, env.mk_event(k % 3, 1, env.NOW - 50 + k, [["t", "secret" if secret else "public"]], c), visible=not secret)
+            # phase 2: an event, its author's deletion, and the same event again (accepted again once it is gone): E, D, E everywhere
+            w2 = script[-1][0]
+            E = env.mk_event(1, 1, env.NOW - 20, [["t", "public"]], "again")
+            D = env.mk_event(1, 5, env.NOW - 10, [["e", E["id"]]], "bye")
+            await submit(w2, E)
+            await collect(alive)
+            await submit(w2, D, visible=False)           # kind 5 does not match the subscribers' filter
+            await asyncio.sleep(0.05)
+            await submit(w2, E)
+            await collect(alive)
+            phase2 = [list(g) for g in got]
+            left = None
+            if len(workers) >= 3:
+                # phase 3: a worker that has announced events leaves; the others go on exchanging events
+                left = next((w for w, _ in script if w != len(workers) - 1), 0)
+                try:
+                    workers[left].notifier._task.cancel()
+                except Exception:
+                    pass
+                await asyncio.sleep(0.1)
+                alive = [i for i in alive if i != left]
+                for k in range(3):
+                    await submit(alive[k % len(alive)], env.mk_event(k % 3, 1, env.NOW - 5 + k, [["t", "public"]], "after-leave%d" % k))
+                await collect(alive)
+            return accepted, got, connected, bool(Config.should_run_notifier), early_failed, raised, left
         finally:
             notifier.NotifyClient.__init__, notifier.NotifyServer.__init__, notifier.asyncio = saved
             web.is_main_process.clear()
             # the server's side of every connection is closed first: NotifyServer.run leaves `async with server`
             # only when no connection is left open (Server.wait_closed, Python 3.12)
-            for srv in servers:
-                for wr in list(srv.connections.values()):
+            for wr in list(Remembering.ever):
+                try:
                     wr.close()
+                except Exception:
+                    pass
             await asyncio.sleep(0.05)
             for w in workers:
                 try:
@@ -860,8 +912,8 @@ def suite_two_workers(tier, seed):
             sc.close()
     for _ in range(2 if tier == "quick" else 12):
         n = rng.choice([2, 2, 3])
-        script = [(rng.randrange(n), "w%d" % k) for k in range(rng.randint(4, 10))]
-        accepted, got, connected, should, early_failed, raised = env.run(one(n, script))
+        script = [(rng.randrange(n), "w%d%s" % (k, "s" if rng.random() < 0.3 else "p")) for k in range(rng.randint(4, 10))]
+        accepted, got, connected, should, early_failed, raised, left = env.run(one(n, script))
         s.count("early_announcement_failed" if early_failed else "early_announcement_sent")
         case = {"workers": n, "accepted_by": [w for w, _ in script]}
         s.case(case, nontrivial=len({w for w, _ in script}) > 1)
@@ -872,6 +924,8 @@ def suite_two_workers(tier, seed):
         if raised:
             s.violate("worker-add-event-raised", case, "accepting an event raised on a worker whose earlier announcement had failed: " + raised[0], observed=raised[:3])
         for i, g in enumerate(got):
+            if i == left:
+                continue                      # the worker that left is judged up to its departure by the others' view only
             if sorted(g) != sorted(accepted):
                 missing = [x[:8] for x in accepted if x not in g]
                 dup = sorted({x[:8] for x in g if g.count(x) > 1})
@@ -1281,6 +1335,11 @@ def suite_ack_with_failing_broadcast(tier, seed, backends=("sql", "kv")):
                 if escaped:
                     s.violate("handler-exception-escaped", case, "an exception left the connection handler: " + escaped)
     return s
+
+
+def public_only(event, context):
+    """output validator of the worker suites: events tagged t=secret are for members only - and nobody here is a member"""
+    return not any(len(tg) > 1 and tg[0] == "t" and tg[1] == "secret" for tg in event.tags)
 
 
 def raise_for_marked(event, context):
